@@ -14,10 +14,13 @@ EXTENDS Integers, Sequences
 Base == 10000
 Abs(x) == IF x < 0 THEN -x ELSE x
 
-\* | D2*Base^2 + D1*Base + D0 | <= tolv   (requires |Di| < 10^9 and tolv < 10^8; evaluated without overflow)
+\* | D2*Base^2 + D1*Base + D0 | <= tolv, evaluated without overflow.  Requires |Di| <= 10^9 and tolv <= 10^8.
+\* The limbs of a combination are not normalised (no carries), so D2 and D1 may be large while the total is small;
+\* but  |total| <= tolv  implies  |D2| <= 10^5 + 1  and  |D2*Base + D1| <= 10^5,  which bounds every intermediate
+\* value below 2^31.
 SmallL3(D2, D1, D0, tolv) ==
-    /\ Abs(D2) <= 2
-    /\ Abs(D2 * Base + D1) <= 20000
+    /\ Abs(D2) <= 100001
+    /\ Abs(D2 * Base + D1) <= 100000
     /\ Abs((D2 * Base + D1) * Base + D0) <= tolv
 
 \* a, b limb triples (sequences of length 3, most significant first): | a - sg*b | <= tolv
